@@ -395,10 +395,11 @@ static void check_offline(int lt, const std::vector<Frame>& fr, const std::strin
     if (oracle.ok && !oracle.ok1) cnt("offline:never-matching-filter-accepted");
     if (!oracle.ok) { violation("offline-filter/ctor-accepts-invalid-filter", "OfflinePacketFilter was constructed for a filter libpcap rejects (" + oracle.err + ") :: " + ctx + " filter='" + expr + "' snap_len=" + std::to_string(snap)); return; }
     // copies: copy-constructed, and assigned over a filter of another expression / link type
-    OfflinePacketFilter copy(*a.p);
+    std::unique_ptr<OfflinePacketFilter> copy;
     OpfBox other; int olt = (int)rng.below(NLT); try { other.make(olt, rng.chance(1, 2) ? "len > 77" : "less 5", 65535, 0); } catch (...) { other.p = nullptr; }
-    if (other.p) { *other.p = *a.p; cnt("offline:assigned"); }
-    const OfflinePacketFilter* objs[3] = {a.p, &copy, other.p};
+    try { copy.reset(new OfflinePacketFilter(*a.p)); if (other.p) { *other.p = *a.p; cnt("offline:assigned"); } }
+    catch (...) { violation("offline-filter/copy-throws/" + current_exception_type(), "copying an OfflinePacketFilter threw " + current_exception_type() + " :: " + ctx + " filter='" + expr + "' snap_len=" + std::to_string(snap)); other.p = nullptr; return; }
+    const OfflinePacketFilter* objs[3] = {a.p, copy.get(), other.p};
     static const char* onm[3] = {"constructed", "copy-constructed", "copy-assigned"};
     for (size_t j = 0; j < fr.size(); ++j) {
         const Frame& f = fr[j]; ExactBuf eb(f.data);
@@ -620,6 +621,22 @@ static void read_back(const std::string& path, int lt, const std::vector<Frame>&
     } catch (...) { violation("exception-escaped/after-end/" + current_exception_type(), "exception after the end of the capture :: " + ctx); }
 }
 
+// file-level errors must surface as pcap_error, never as a crash or another exception
+static void file_level_errors(Rng& rng, const std::string& base, FileGuard& g) {
+    auto expect_pcap_error = [&](const char* what, const std::function<void()>& f) {
+        try { f(); violation(std::string("open/accepted/") + what, std::string("no exception for ") + what); }
+        catch (pcap_error&) { cnt(std::string("open-error:") + what); }
+        catch (...) { violation(std::string("open/exception/") + current_exception_type() + "/" + what, "threw " + current_exception_type() + " instead of pcap_error for " + what); }
+    };
+    expect_pcap_error("missing-file", [&]() { FileSniffer s(base + ".missing"); });
+    std::string p = base + ".bad"; g.names.push_back(p);
+    Bytes b = rng.bytes(rng.below(40)); if (b.size() >= 4) b[0] = 0x11;      // not a pcap/pcapng magic
+    if (!write_all(p, b)) return;
+    expect_pcap_error("bad-magic", [&]() { FileSniffer s(p, SnifferConfiguration()); });
+    expect_pcap_error("bad-magic-FILE*", [&]() { FILE* fp = fopen(p.c_str(), "rb"); if (!fp) throw pcap_error("harness"); try { FileSniffer s(fp, SnifferConfiguration()); } catch (...) { fclose(fp); throw; } });
+    expect_pcap_error("writer-unwritable-path", [&]() { PacketWriter w("c17-no-such-dir/x.pcap", DataLinkType<EthernetII>()); });
+}
+
 static void one_case(long idx, Rng& rng) {
     const Args& a = st().a; bool thorough = a.tier == "thorough"; bool probes = a.geti("probes", 1) != 0;
     int lt = (int)(idx % NLT);
@@ -634,6 +651,7 @@ static void one_case(long idx, Rng& rng) {
     std::string head = ctx + (use_filter ? " filter='" + expr + "'" : "") + (crash_probe ? " kf=offline-filter-compile-error" : "");
     describe_case(head);
     cnt(std::string("files:") + LTS[lt].name);
+    if (rng.chance(1, 50)) file_level_errors(rng, path, guard);
 
     std::vector<Frame> fr; u32 file_snap = 65535; const char* tail = "clean";
     if (writer_kind) {
@@ -684,4 +702,9 @@ static void one_case(long idx, Rng& rng) {
     }
 }
 
-int main(int argc, char** argv) { return vf::run(argc, argv, "C17", one_case); }
+int main(int argc, char** argv) {
+    return vf::run(argc, argv, "C17", [](long idx, Rng& rng) {
+        try { one_case(idx, rng); }
+        catch (...) { violation("unexpected-exception/" + current_exception_type(), "an exception nobody expects left the case: " + current_exception_type()); }
+    });
+}
